@@ -365,6 +365,12 @@ def hostile(thorough):
                                           desc_num=dn))))
         out.append(('vmdk', 'vmdk version 3, descriptor of %d sectors' % dn,
                     images.vmdk(desc_num=dn, ver=3, length=big, fill=b'a')))
+    # fields no length is normally derived from, at their maxima
+    for dn in (0, 1):
+        for rgd in (2 ** 32, 2 ** 64 - 1):
+            out.append(('vmdk', 'vmdk descriptor of %d sectors, rgdOffset '
+                        '%d' % (dn, rgd), images.vmdk(
+                            desc_num=dn, rgd=rgd, length=big, fill=b'a')))
     out.append(('vmdk', 'pure text 3MiB', b'some text line\n' * (big // 15)))
     out.append(('vmdk', 'zeros 3MiB', b'\x00' * big))
     import struct
